@@ -558,3 +558,45 @@ func EdgeConds(pred, succ *ssa.BasicBlock) []Cond {
 	}
 	return out
 }
+
+// Loop is a natural loop: Header dominates every block of Blocks; Latches are the sources of its back edges.
+type Loop struct {
+	Header  *ssa.BasicBlock
+	Blocks  map[*ssa.BasicBlock]bool
+	Latches []*ssa.BasicBlock
+}
+
+// Loops returns the natural loops of fn (back edges b->h with h dominating b; loops sharing a header are merged).
+func Loops(fn *ssa.Function) []*Loop {
+	byHeader := map[*ssa.BasicBlock]*Loop{}
+	var order []*ssa.BasicBlock
+	for _, b := range fn.Blocks {
+		for _, h := range b.Succs {
+			if !h.Dominates(b) {
+				continue
+			}
+			l := byHeader[h]
+			if l == nil {
+				l = &Loop{Header: h, Blocks: map[*ssa.BasicBlock]bool{h: true}}
+				byHeader[h] = l
+				order = append(order, h)
+			}
+			l.Latches = append(l.Latches, b)
+			stack := []*ssa.BasicBlock{b}
+			for len(stack) > 0 {
+				x := stack[len(stack)-1]
+				stack = stack[:len(stack)-1]
+				if l.Blocks[x] {
+					continue
+				}
+				l.Blocks[x] = true
+				stack = append(stack, x.Preds...)
+			}
+		}
+	}
+	var out []*Loop
+	for _, h := range order {
+		out = append(out, byHeader[h])
+	}
+	return out
+}
